@@ -72,6 +72,9 @@ class Shadow:
         self.expunges_seen = 0
         self.exists_seen = 0
         self.fetch_seen = 0
+        # C17 bookkeeping
+        self.recent_seen: list = []      # (slot, selection dict)
+        self.sel_log: list[dict] = []    # selection intervals
 
     # -- helpers ------------------------------------------------------------
 
@@ -119,6 +122,10 @@ class Shadow:
             cmd.extra['addressed'] = self.resolve(
                 cmd.action['set'].encode('latin-1'),
                 bool(cmd.action.get('uid')))
+            if any(f.lower() == '\\recent' for f in cmd.action['flags']):
+                cmd.extra['recent_before'] = [
+                    (sl, None if sl.flags is None else b'\\Recent' in sl.flags)
+                    for sl in (cmd.extra['addressed'] or ())]
 
     def on_idle_start(self, cmd) -> None:
         cmd.extra['idle_baseline'] = [(sl.uid, sl.flags) for sl in self.slots]
@@ -203,6 +210,8 @@ class Shadow:
             flags = data.get(b'FLAGS')
             if flags is not None:
                 slot.flags = frozenset(canon_flag(f) for f in flags)
+                if b'\\Recent' in slot.flags and self.selected is not None:
+                    self.recent_seen.append((slot, self.selected))
                 if cur is not None:
                     cur.extra.setdefault('flag_fetched', []).append(slot)
             return
@@ -220,6 +229,10 @@ class Shadow:
         cond = cmd.cond
         if kind in ('select', 'examine') and cmd is self.selecting:
             self.selecting = None
+            if cond != 'BAD':
+                saved = self._saved[0] if self._saved else None
+                if saved is not None and saved.get('end') is None:
+                    saved['end'] = self.client.world.seq
             if cond == 'OK':
                 self.incarnation += 1
                 code = cmd.result.code
@@ -236,7 +249,11 @@ class Shadow:
                     'recent': self.recent_count,
                     'exists': self.count,
                     'incarnation': self.incarnation,
-                    'seq': self.client.world.seq}
+                    'sid': self.client.sid,
+                    'seq': self.client.world.seq,
+                    'start_inv': cmd.seq_invoke, 'start_ret': cmd.seq_return,
+                    'end': None}
+                self.sel_log.append(self.selected)
             elif cond == 'BAD' and self._saved is not None:
                 self.selected, self.slots, self.recent_count = self._saved
             else:
@@ -244,13 +261,44 @@ class Shadow:
                 self.slots = []
             self._saved = None
         elif kind in ('close', 'unselect') and cond == 'OK':
+            self._end_selection()
             self.selected = None
             self.slots = []
+        elif kind == 'logout':
+            self._end_selection()
         elif kind == 'store' and cond == 'OK' and cmd.action.get('silent') \
                 and self.selected is not None:
             self._apply_silent(cmd)
+        if kind == 'store' and 'recent_before' in cmd.extra:
+            live = {id(x) for x in self.slots}
+            for sl, before in cmd.extra['recent_before']:
+                if before is None or id(sl) not in live or sl.flags is None:
+                    continue
+                now = b'\\Recent' in sl.flags
+                if now and not before:
+                    # \Recent may legitimately show up late for a message
+                    # that arrived during this selection; it can never appear
+                    # on one that was already there at SELECT time
+                    nxt = (self.selected or {}).get('uidnext')
+                    if sl.uid is None or nxt is None or sl.uid >= nxt:
+                        continue
+                if now != before:
+                    self.client.violate(
+                        'C17', 'store-changed-recent', 'STORE %sFLAGS %s '
+                        'changed \\Recent on UID %s from %s to %s' % (
+                            cmd.action.get('op', ''), cmd.action['flags'],
+                            sl.uid, before, not before))
+                    break
         if self.client.glass and cmd.result is not None:
             self.glass_check(cmd)
+
+    def _end_selection(self) -> None:
+        for sel in self.sel_log:
+            if sel['end'] is None:
+                sel['end'] = self.client.world.seq
+
+    def on_disconnect(self) -> None:
+        self._end_selection()
 
     def _apply_silent(self, cmd) -> None:
         act = cmd.action
